@@ -85,13 +85,26 @@ def main():
     prev = {}
     if os.path.exists(os.path.join(dst, 'meta.json')):
         prev = json.load(open(os.path.join(dst, 'meta.json')))
+    # --verif DIR: run the checks of a frozen snapshot of /verif (a git
+    # worktree at the commit the round started from); --base REV: the /repo
+    # revision the agents worked on.  Together they keep a first run blind
+    # while /verif and /repo move on.
+    checks = VERIF
+    if '--verif' in sys.argv:
+        checks = sys.argv[sys.argv.index('--verif') + 1]
+    base_rev = 'HEAD'
+    if '--base' in sys.argv:
+        base_rev = sys.argv[sys.argv.index('--base') + 1]
+    meta['checks_from'] = checks if checks != VERIF else 'working tree'
     if '--round' in sys.argv:
         meta['round'] = int(sys.argv[sys.argv.index('--round') + 1])
     elif 'round' in prev:
         meta['round'] = prev['round']
     try:
-        rc, out = sh(f'git -C /repo worktree add --detach {scratch} HEAD -q')
-        meta['repo_head'] = sh('git -C /repo rev-parse --short HEAD')[1].strip()
+        rc, out = sh(f'git -C /repo worktree add --detach {scratch} '
+                     f'{base_rev} -q')
+        meta['repo_head'] = sh(f'git -C /repo rev-parse --short '
+                               f'{base_rev}')[1].strip()
         demo = os.path.join(dst, 'demo.py')
         rc0, out0 = run_demo(scratch, demo)
         meta['demo_unpatched_rc'] = rc0
@@ -117,7 +130,7 @@ def main():
             meta['ran'].append('pytest (15 baseline test files, -n 8): '
                                f'{len(passed)} passed, '
                                f'{len(missing)} of 161 baseline missing')
-            rck, outk = sh(f'{VERIF}/check {prop} quick --no-evidence '
+            rck, outk = sh(f'{checks}/check {prop} quick --no-evidence '
                            f'--root {scratch}')
             meta['check_rc'] = rck
             rules = []
@@ -130,13 +143,13 @@ def main():
             # other properties that may also see it
             others = {}
             if rck != 1:
-                for p in sorted(os.listdir(os.path.join(VERIF, 'sa', 'props'))):
+                for p in sorted(os.listdir(os.path.join(checks, 'sa', 'props'))):
                     if p.startswith('c') and p[1:3].isdigit() and \
                             p.endswith('.py'):
                         pid = p[:3].upper()
                         if pid == prop:
                             continue
-                        r, o = sh(f'{VERIF}/check {pid} quick --no-evidence '
+                        r, o = sh(f'{checks}/check {pid} quick --no-evidence '
                                   f'--root {scratch}')
                         if r == 1:
                             others[pid] = [l.strip() for l in o.splitlines()
